@@ -49,6 +49,18 @@ def check_c17(prop, tier, seed):
         for i, (name, path, doc) in enumerate(fmt.shipped_bases()):
             lines.append(dict(id=i + 1, kind="valid", rule="none", pos=0, doc=doc, name=name))
             paths.append(path)
+        # the hand-written corpus as documents (name clashes across namespaces, unordered hosts, two-digit
+        # host ids in deny-lists, ...)
+        corpus_paths = []
+        for j, n in enumerate(sorted(fmt.corpus.SPECS)):
+            sp = fmt.corpus.yaml_variant(fmt.corpus.SPECS[n])
+            p = fmt.corpus.write_yaml(sp, os.path.join(wd, sp["name"] + ".yaml"))
+            import yaml as _yaml
+            with open(p) as fh:
+                doc = fmt.tag(_yaml.safe_load(fh))
+            lines.append(dict(id=50 + j, kind="valid", rule="none", pos=0, doc=doc, name=sp["name"]))
+            paths.append(p)
+            corpus_paths.append(p)
         for j, doc in enumerate(docs):
             p = fmt.render_yaml(doc, os.path.join(wd, "doc%d.yaml" % j))
             lines.append(dict(id=100 + j, kind="valid", rule="none", pos=0, doc=doc, name="generated-%d" % j))
@@ -82,6 +94,9 @@ def check_c17(prop, tier, seed):
                 jobs.append(dict(src=("yaml_file", p), exhaustive=True, max_states=30, foreign=False, extras=False))
             else:
                 jobs.append(dict(src=("yaml_file", p), random_steps=300, seed=seed + ln["id"], extras=False))
+        for p in corpus_paths:
+            if p.endswith("wide_yaml.yaml") or p.endswith("name_clash_yaml.yaml") or tier != "quick":
+                jobs.append(dict(src=("yaml_file", p), random_steps=500, seed=seed + 11, extras=False))
         for n in (["tiny", "medium-multi-site"] if tier == "quick" else fmt.corpus.YAML_BENCHMARKS):
             jobs.append(dict(src=("bench_yaml", n), random_steps=400 if tier == "quick" else 1500, seed=seed + 7))
         results = dynamic.run_jobs(jobs, procs=8)
